@@ -107,8 +107,9 @@ Proof. vm_compute. repeat split; reflexivity. Qed.
              -- with any layout between all tokens; keys are identifiers with an optional modifier,
                 values a digit run / identifier / string literal followed by further characters other
                 than "," ";" (Proofs/ArgLemmas.v: args_ok),
-     IName : a name that starts no macro call whose bracket is followed by a name, a string literal or
-             `target:` (vec![..], a != b, assert!(!x), m!(1 + 2) are fine; println!("..") is an IStmt),
+     IName : a name that starts no macro call whose bracket is followed by a string literal, `target:` or a
+             key-value list (vec![..], a != b, assert!(!x), m!(1 + 2), assert!(a > b), dbg!(x) are fine;
+             println!("..") is an IStmt),
      IChar : any other character (not whitespace, not a name start, not opening a comment).
    items_ok is purely syntactic (no hypothesis mentions the parser).  The result is computed in closed
    form by `expected`: one entry per statement whose name is configured and which is not under an
@@ -133,7 +134,7 @@ Theorem C10_canonical_parse_tree : forall its fin,
 Proof. exact file_parse. Qed.
 
 (* non-vacuity: a small program with a header comment, a use line, vec![..], three statements (simple,
-   qualified with a comment inside the brackets and an escaped quote, unconfigured), assert!(!ok), and a
+   qualified with a comment inside the brackets and an escaped quote, unconfigured), assert!(!ok), assert!(a > b), and a
    trailing commented-out statement without a final newline *)
 Definition ex_items : list (lay * item) :=
   [(([], [(CLine [32;104;101;97;100;101;114], [10])]), IName (mkQ 117 false [(115, false);(101, false)]));
@@ -171,6 +172,14 @@ Definition ex_items : list (lay * item) :=
    (([], []), IName (mkQ 111 false [(107, false)]));
    (([], []), IChar 41);
    (([], []), IChar 59);
+   (([10;32;32;32;32], []), IName (mkQ 97 false [(115, false);(115, false);(101, false);(114, false);(116, false)]));
+   (([], []), IChar 33);
+   (([], []), IChar 40);
+   (([], []), IName (mkQ 97 false []));
+   (([32], []), IChar 62);
+   (([32], []), IName (mkQ 98 false []));
+   (([], []), IChar 41);
+   (([], []), IChar 59);
    (([10], []), IChar 125)].
 Definition ex_fin : lay := ([10], [(CLine [32;105;110;102;111;33;40;34;110;111;116;32;99;111;100;101;34;41], [])]).
 
@@ -182,7 +191,9 @@ Example C10_canonical_nonvacuous :
     (e_pos e1, e_line e1, e_col e1) = (69, 5, 12) /\ (e_pos e2, e_line e2, e_col e2) = (103, 6, 26).
 Proof.
   split.
-  - cbn. repeat split; try reflexivity; try exact I; try discriminate.
+  - cbn. repeat split; try reflexivity; try exact I; try discriminate;
+      try (intros _; left; split; [reflexivity|discriminate]);
+      try (intros _; right; split; [reflexivity|split; [|reflexivity]; unfold stop_char; repeat split; try discriminate; vm_compute; reflexivity]).
   - eexists. eexists. vm_compute. repeat split; reflexivity.
 Qed.
 
